@@ -73,6 +73,21 @@ theorem Forall2.imp_mem {α β} {P Q : α → β → Prop} : ∀ {l : List α} {
     | cons y t =>
       exact ⟨hpq x (List.mem_cons_self ..) y h.1, ih (fun z hz => hpq z (List.mem_cons_of_mem _ hz)) h.2⟩
 
+theorem Forall2.mem_right {α β} {P : α → β → Prop} : ∀ {l : List α} {ys : List β},
+    Forall2 P l ys → ∀ y ∈ ys, ∃ x ∈ l, P x y := by
+  intro l
+  induction l with
+  | nil => intro ys h y hy; cases ys with | nil => cases hy | cons _ _ => exact h.elim
+  | cons x xs ih =>
+    intro ys h y hy
+    cases ys with
+    | nil => cases hy
+    | cons z zs =>
+      rcases List.mem_cons.mp hy with rfl | hy
+      · exact ⟨x, List.mem_cons_self .., h.1⟩
+      · obtain ⟨x', hx', hp⟩ := ih h.2 y hy
+        exact ⟨x', List.mem_cons_of_mem _ hx', hp⟩
+
 /-- the scaffolds of the expected result, record by record -/
 theorem foldl_addRec_forall2 (recs : List Rec) : ∀ o : Out, ∃ tail,
     (recs.foldl addRec o).scaffolds = o.scaffolds ++ tail ∧
@@ -124,23 +139,9 @@ theorem built_index_valid (hdr : List Str) (recs : List Rec) (hnd : (recs.map Re
   have h1 := expected_scaffolds recs
   refine ⟨h1, ?_⟩
   have hgood : ∀ s ∈ (recs.foldl addRec {}).scaffolds, RowsGood s.rows := by
-    obtain ⟨tail, e1, e2⟩ := foldl_addRec_forall2 recs {}
     intro s hs
-    have hlen := h1.length_eq
-    -- every scaffold is the partner of some record
-    have : ∀ (l : List Rec) (m : List Scaffold), Forall2 RecScaffold l m → ∀ s ∈ m, RowsGood s.rows := by
-      intro l
-      induction l with
-      | nil => intro m h s hs; cases m with | nil => cases hs | cons _ _ => exact h.elim
-      | cons r t ih =>
-        intro m h s hs
-        cases m with
-        | nil => cases hs
-        | cons y ys =>
-          rcases List.mem_cons.mp hs with rfl | hs
-          · exact fun x hx => ⟨(h.1.2.2 x hx).1, (h.1.2.2 x hx).2.1⟩
-          · exact ih ys h.2 s hs
-    exact this _ _ h1 s hs
+    obtain ⟨r, _, hp⟩ := Forall2.mem_right h1 s hs
+    exact fun x hx => ⟨(hp.2.2 x hx).1, (hp.2.2 x hx).2.1⟩
   obtain ⟨bodies, hb1, hb2⟩ := formatAgp_good { header := hdr, scaffolds := (recs.foldl addRec {}).scaffolds } hgood
   refine ⟨bodies, hb1, ?_⟩
   have hcomp : Forall2 (fun (r : Rec) (colss : List (List Str)) => ValidAgpLines true r.name 0 0 colss r.res.length)
